@@ -96,8 +96,9 @@ CHECKS = {
                 "C02) on symbolic path summaries in the GF(2) term domain (permutation and helpers uninterpreted, fresh symbols at the loop head, no unrolling), for every path class (prefix, generic "
                 "loop iteration, residues 0..3, refusal): both directions unpack the key to the same words and make the same setup/absorb calls; per class they run the same permutation call on the "
                 "same input state; substituting encrypt's output-byte terms for decrypt's input bytes, decrypt's output equals the plaintext bit for bit and its state equals encrypt's (a 0x7F mask, "
-                "a sign extension, a one-sided constant is refuted); the only length store is mlen+8 / clen-8; cursors and remaining length advance in lock-step, exactly [0,r) is read and written, "
-                "the tag sits at cursor+r and survives, every input byte is loaded before the same output offset is stored; decrypt returns check_tag's verdict on the tag just generated.",
+                "a sign extension, a one-sided constant is refuted); the only length store is mlen+8 / clen-8; cursors and remaining length (or one index over full words plus the left-over count) advance in lock-step through one or several "
+                "data loops, the tag sits right after the data and survives, every input byte is loaded before the same output offset is stored; decrypt returns check_tag's verdict on the tag just generated."
+                " Structure is recognised first (pointer-walking or index-based loops, bulk loops, merged tails); an unrecognised shape ends in exit 2, never in a verdict.",
         "note": "Induction itself is the argument in DESIGN.md. A deviation from the specification made consistently in both directions keeps the round trip and is deliberately not reported by this "
                 "check. N0 IR of clang 14; alignment/endianness independence is C06's R-BYTEWISE; purity of helpers/permutation is C05/C19.",
         "technique": "relational symbolic path summaries (encrypt vs decrypt) in a GF(2) bit-provenance term domain with term substitution, per path class; affine cursor tracking",
@@ -114,7 +115,7 @@ CHECKS = {
         "text": "As C01/C03 for the six SIV functions, RELATIONALLY (conformance with the documented construction is C09): decrypt's second-pass setup equals encrypt's with the 8 bytes at c+clen-8 in "
                 "place of the generated tag (same callee, domain, key, nonce composition; encrypt stores the tag at c+mlen); per path class of the keystream pass both run the same permutation call "
                 "and decrypt applied to encrypt's output terms returns the plaintext bit for bit; decrypt's authentication pass repeats encrypt's first pass call for call over (npub, ad, recovered "
-                "plaintext, clen-8); lock-step/coverage/tag position/load-before-store (the tag bytes are copied before the first plaintext store), and C03's guard / must-pass / argument rules on "
+                "plaintext, clen-8); lock-step/tag position/load-before-store (the tag bytes are copied before the first plaintext store), and C03's guard / must-pass / argument rules on "
                 "the three SIV decrypt functions.",
         "note": "Values not computed; tag sensitivity is a cipher property; check_tag itself is decided under C03/C04. Consistent deviations from the construction are C09's.",
         "technique": "relational symbolic path summaries (encrypt vs decrypt) in a GF(2) term domain; finite-class execution for the length guard",
@@ -127,15 +128,19 @@ CHECKS = {
         "technique": "symbolic path summaries in a GF(2) term domain vs the documented construction",
     },
     "C06": {
-        "text": "Clauses decided: (BOUNDS) all 1863 loads, stores, mem intrinsics and call arguments of the library stay inside the object they derive from - address = object + affine offset "
+        "text": "Clauses decided: (BOUNDS) every load, store, mem intrinsic and call argument of the library stays inside the object it derives from - address = object + affine offset "
                 "(SCEV recurrences; paired non-affine cursors), sizes from a contract table (fixed sizes, paired length parameters, DWARF state sizes) and allocas, bounds from dominating comparisons "
-                "with consistent case splits on merge phis, call sites checked against callee contracts; the two inter-call invariants used (hash/HKDF block position) are re-established by every store "
-                "to those fields. (BYTEWISE/CONST) whole-module points-to: accesses to caller byte buffers claim alignment 1 (N0 and -O3) and are one byte wide (N0); nothing is written through a "
-                "pointer-to-const parameter. (SHIFT) constant in-range shift amounts. (EXACT) AEAD/SIV write exactly mlen+8 / clen-8 bytes per path class, refusals write nothing, wipes cover exactly "
-                "the requested bytes for every length/alignment class (D-COV). (ASM) stores/loads of the 27 assembly programs stay in the state words / frame. Plus compile-fail witnesses.",
-        "note": "Modular: inside a function pointer parameters have the documented sizes (contract table = trusted transcription of TinyJAMBU.h); unsigned length arithmetic assumed not to wrap "
-                "(the clen < 8 guard itself is C03's); uninitialised reads and some nsw obligations are listed as not decided; -O3 objects only for alignment claims; gcc not covered.",
-        "technique": "affine bounds analysis over LLVM IR with contracts (assume/guarantee) + points-to based access-shape rules + residue-affine coverage analysis",
+                "with consistent case splits on merge phis, unconditional facts about masked lengths (x & 3, x & ~3, their sum, divisibility), call sites checked against callee contracts; the two "
+                "inter-call invariants used (hash/HKDF block position) are re-established by every store to those fields. (NOWRAP) every size_t subtraction with a negative part is non-negative under "
+                "the dominating comparisons; refuted only by a witness (parameter values that pass every earlier check and make the length wrap). (BYTEWISE/CONST) whole-module points-to: accesses to "
+                "caller byte buffers claim alignment 1 (N0 and -O3) and are one byte wide (N0); nothing is written through a pointer-to-const parameter. (SHIFT) shift amounts below the width "
+                "(constants exactly, variables by known-bits range). (EXACT) AEAD/SIV write exactly mlen+8 / clen-8 bytes per path class, refusals write nothing; wipes and hash_update never touch "
+                "bytes outside the declared range for every length/alignment class (D-COV, one-sided). (ASM) stores/loads of the 27 assembly programs stay in the state words / frame. "
+                "Plus compile-fail witnesses.",
+        "note": "Modular: inside a function pointer parameters have the documented sizes (contract table = trusted transcription of TinyJAMBU.h); undecided side conditions (no-wrap without a "
+                "parameter-only witness, variable shifts, nsw on opaque operands, exact ranges of functions whose shape the mode summaries do not recognise) are listed in the evidence, not reported; "
+                "an access that can be neither proven nor refuted makes the check exit 2. -O3 objects only for alignment claims; gcc not covered.",
+        "technique": "affine bounds analysis over LLVM IR with contracts (assume/guarantee) + points-to based access-shape rules + residue-affine coverage analysis + witness search for wraps",
     },
     "C10": {
         "text": "Construction conformance of TinyJAMBU-Hash with the documented MDPH construction: init, update and finalize are evaluated per buffer-position class (0..15), per length class, with "
@@ -156,7 +161,7 @@ CHECKS = {
     "C12": {
         "text": "RFC 2104 structure for every key-length class (each length 0..64 and the class > 64): in init, reinit and finalize the 64-byte block absorbed equals (key ^ pad) || pad-padding byte for "
                 "byte (ipad 0x36, opad 0x5C), long keys are hashed to 32 bytes first, the block is wiped; finalize = inner digest, outer key block, update(inner digest, 32), finalize(out); update is a "
-                "wrapper; one-shot = init/update/finalize/wipe. Hash primitives are uninterpreted events whose outputs are fresh symbols.",
+                "wrapper; one-shot = init/update/finalize/wipe. Hash primitives are uninterpreted events whose outputs are fresh symbols. Premise R-C12-HASH re-runs all rules of C10/C11.",
         "note": "MAC values are not computed; the hash is C10/C11; the caller passing the same key to finalize is an API contract.",
         "technique": "finite-class (key length) symbolic path summaries with uninterpreted hash events",
     },
@@ -164,14 +169,17 @@ CHECKS = {
         "text": "RFC 5869 structure: one-shot = the two outlen classes w.r.t. 8160 (above: -1, no call, no write; else extract, expand, wipe, 0); extract = HMAC(salt, IKM) with counter 1 and nothing "
                 "buffered; expand analysed for each of the 33 buffer positions, each short-request length, and one generic loop iteration per counter class {0, 1, other}: T(n) = HMAC(PRK, T(n-1) | "
                 "info | n) with the counter byte absorbed before its 8-bit increment, refusal with a zero-filled remainder when the counter is 0, left-over bytes served first, min(32, remaining) bytes "
-                "handed out per block, cursor/remaining in lock-step. HMAC calls are uninterpreted events with fresh output symbols; buffer contents tracked byte for byte.",
+                "handed out per block, cursor/remaining in lock-step. HMAC calls are uninterpreted events with fresh output symbols; buffer contents tracked byte for byte. The 255-block limit is a "
+                "semantic rule: no block is generated with the 8-bit counter at 0 - by a check at the top of every iteration or because counter != 0 is an inductive invariant of the loop. "
+                "Premise R-C13-PRF re-runs C12/C10/C11.",
         "note": "Output values are not computed; HMAC is C12. 'Empty salt = 32 zero bytes' follows from C12's key-block rule for key length 0.",
         "technique": "finite-class symbolic path summaries (buffer position, counter class, length class) with uninterpreted HMAC events",
     },
     "C14": {
         "text": "RFC 8018 structure: per block U1 = PRF(P, S || INT32BE(i)) with the big-endian block-number bytes checked at bit level, count classes {0,1} (no chain) and > 1 (U2, then a chain loop "
                 "from the caller's count while count > 2, one generic iteration U(j+1) = PRF(P,U(j)), T ^= U(j+1)): count PRFs in total; block number from 1 in steps of 1; full blocks in place with "
-                "lock-step cursor/length; each last-block length 1..31 copies exactly that many bytes of T; T and U wiped.",
+                "lock-step cursor/length; each last-block length 1..31 copies exactly that many bytes of T; T and U wiped. The chain trip count comes from ScalarEvolution (either loop direction). "
+                "Premise R-C14-PRF re-runs C12/C10/C11.",
         "note": "Derived key values are not computed; block numbers beyond 2^32 are outside RFC 8018; HMAC is C12.",
         "technique": "finite-class symbolic path summaries with uninterpreted HMAC events; generic iterations of the block and chain loops",
     },
@@ -179,7 +187,7 @@ CHECKS = {
         "text": "Hash_DRBG structure on every path: instantiate, reseed and feed are the documented Hash_df chains (constant header bytes, the working value V absorbed byte for byte, then the new "
                 "material, then C = Hash_df(0x00 | V)) with the counter reset/incremented as documented; generate, per generic iteration with and without the automatic reseed and per block length "
                 "1..32: output = leading bytes of Hash(V), H = Hash(3 | V), V' = V + H + C + counter as a big-endian 256-bit sum (exact support sets plus evaluation of the bit-level terms on corner and "
-                "pseudo-random assignments). Hash calls are uninterpreted events with fresh outputs.",
+                "pseudo-random assignments). Hash calls are uninterpreted events with fresh outputs. Premise R-C15-HASH re-runs all rules of C10/C11.",
         "note": "Output values are not computed (hash: C10/C11); reseed placement is C16; the sum is checked for counters below 2^31.",
         "technique": "symbolic path summaries with uninterpreted hash events; bit-level term evaluation for the 256-bit addition",
     },
